@@ -288,12 +288,14 @@ def check_dedup(run: Run, prog: Program) -> None:
               "a request for an unknown component changes the subscription state", node=am.node, file=am.file)
     apps = nodes_with_call(cfg, lambda c: isinstance(c.func, ast.Attribute) and c.func.attr == "append")
     upd = [x for x in nodes_with_call(cfg, lambda c: method_call(c, "self", "_update_streams")) if cfg.is_await(x)]
+    scan_loops = [h for h in cfg.nodes if h.kind == "for" and "_req_streaming_metrics" in h.label]
+    ev = u(scan_loops[0].ast.target) if scan_loops else "?"  # type: ignore[union-attr]
     scans = [t for t in cfg.nodes if t.kind == "test" and t.ast is not None and canon(t.ast) == (
-        "==", frozenset({"existing_request.get_channel_name()", f"{req}.get_channel_name()"}))]
+        "==", frozenset({f"{ev}.get_channel_name()", f"{req}.get_channel_name()"}))]
     ok = len(apps) == 1 and len(upd) == 1 and len(scans) == 1
     wit = None
     if ok:
-        loops = [h for h in cfg.nodes if h.kind == "for" and "existing_request" in h.label]
+        loops = scan_loops
         ok = len(loops) == 1 and cfg.path(cfg.entry, apps, avoid=[loops[0].id]) is None
         dup_side = cfg.reachable([m for m, lab in cfg.succ[scans[0].id] if lab == "true"], avoid=[loops[0].id])
         ok = ok and apps[0] not in dup_side and upd[0] not in dup_side and cfg.exit in dup_side
